@@ -39,6 +39,12 @@ def run(ctx: Ctx):
 
     generic_lints(ctx)
     inflate_position(ctx)
+    from .common import rebuild_forwards_settings
+
+    rebuild_forwards_settings(ctx, "rebuild-settings", "cube.py", "Cube", ("cube_idx", "transforms"))
+    from .common import payload_value_truthiness
+
+    payload_value_truthiness(ctx)
 
 
 def enumeration(ctx: Ctx):
